@@ -1052,6 +1052,14 @@ impl<'a> Cx<'a> {
                     Expr::Match(m) => self.stmt_match(m, rest, k),
                     Expr::ForLoop(f) => self.stmt_for(f, rest, k),
                     Expr::Loop(l) => self.stmt_loop(l, rest, k),
+                    Expr::While(w) => self.stmt_while(w, rest, k),
+                    Expr::MethodCall(mc) if self.gc_mode && semi.is_some() => match self.gc_statement(mc)? {
+                        Some((pre, upd)) => {
+                            let body = self.block(rest, k)?;
+                            Ok(wrap_pre(&pre, format!("({}{})", upd, body)))
+                        }
+                        None => self.un(format!("statement `{}` of a collector pass not modelled", truncate_chars(&compact(&toks(e)), 60))),
+                    },
                     Expr::Block(b) if semi.is_some() || !is_tail => {
                         let mut stmts = seal(b.block.stmts.clone());
                         stmts.extend_from_slice(rest);
